@@ -51,17 +51,11 @@ Definition qrun_op (k : fkb) (qk : list qobj) (roots : list nat) (w : qworld_sta
            a fully quantified outer formula reads those neurons, one with free variables reads the operand's table *)
         let j := (qop q - nb)%nat in
         let inner := nthq (snd w) j in
-        let rows := if fully_quantified q then map (fun e => (fst e, snd (snd e))) (qneu inner) else qtab inner in
+        let rows := nested_rows q inner in
         match q_down q (nthq (snd w) i) rows with
         | None => None
         | Some (st, props) =>
-            let r := fold_left (fun (acc : qstate * Q) gp =>
-                                  match qfind (qneu (fst acc)) (fst gp) with
-                                  | Some (a, b) =>
-                                      let b' := agg_bnd WBoth b (snd gp) in
-                                      (QS (qset (qneu (fst acc)) (fst gp) (a, bred b')) (qtab (fst acc)), Qred (snd acc + moved b b'))
-                                  | None => acc
-                                  end) props (inner, 0%Q) in
+            let r := q_push_inner inner props in
             let w' := (fst w, setq (setq (snd w) i st) j (fst r)) in
             Some (w', L [eq_ (snd r); eqworld qk nb w'])
         end
